@@ -30,6 +30,85 @@ type c04Input struct {
 	Seed  int64  `json:"seed"`
 	Dens  int    `json:"density"`
 	Kinds string `json:"kinds"` // which decoration kinds are used: b(lock) l(ine) n(ewline)
+	Shape string `json:"shape_edit,omitempty"` // an edit applied to the parsed tree before anything else: it leaves a tree that no parse produces (c04ShapeEdit)
+}
+
+// c04ShapeEdit: trees that the decorator never produces but edits do.  The property speaks of any
+// tree (parsed or hand-built): the oracle below treats the edited tree like a parsed one.  Returns
+// how many nodes were changed.
+//   indexlist-truncate      every IndexListExpr keeps only its first index (the parser gives
+//                           IndexExpr for one index, so IndexListExpr with one index only arises so)
+//   indexlist-apply-delete  the same through dstutil.Apply + Cursor.Delete
+//   indexlist-keep-last     every IndexListExpr keeps only its last index
+//   indexlist-from-index    every IndexExpr becomes an IndexListExpr with that one index, keeping
+//                           its decorations point by point (Index -> Indices)
+//   call-drop-args / composite-drop-elts / fieldlist-drop-to-one: lists reduced by an edit while
+//                           the decorations of the list node stay
+func c04ShapeEdit(f *dst.File, shape string) int {
+	n := 0
+	switch shape {
+	case "indexlist-truncate", "indexlist-keep-last", "call-drop-args", "composite-drop-elts", "fieldlist-drop-to-one":
+		var all []dst.Node
+		reflectPreorder(f, nil, &all)
+		for _, nd := range all {
+			switch nd := nd.(type) {
+			case *dst.IndexListExpr:
+				if len(nd.Indices) > 1 && shape == "indexlist-truncate" {
+					nd.Indices = nd.Indices[:1]
+					n++
+				}
+				if len(nd.Indices) > 1 && shape == "indexlist-keep-last" {
+					nd.Indices = nd.Indices[len(nd.Indices)-1:]
+					n++
+				}
+			case *dst.CallExpr:
+				if len(nd.Args) > 1 && shape == "call-drop-args" && !nd.Ellipsis {
+					nd.Args = nd.Args[:1]
+					n++
+				}
+			case *dst.CompositeLit:
+				if len(nd.Elts) > 1 && shape == "composite-drop-elts" {
+					nd.Elts = nd.Elts[:1]
+					n++
+				}
+			case *dst.FieldList:
+				if len(nd.List) > 1 && shape == "fieldlist-drop-to-one" {
+					nd.List = nd.List[:1]
+					n++
+				}
+			}
+		}
+	case "indexlist-apply-delete":
+		dstutil.Apply(f, func(c *dstutil.Cursor) bool {
+			if _, ok := c.Parent().(*dst.IndexListExpr); ok && c.Name() == "Indices" && c.Index() >= 1 {
+				c.Delete()
+				n++
+			}
+			return true
+		}, nil)
+	case "indexlist-from-index":
+		dstutil.Apply(f, nil, func(c *dstutil.Cursor) bool {
+			if ie, ok := c.Node().(*dst.IndexExpr); ok {
+				il := &dst.IndexListExpr{X: ie.X, Indices: []dst.Expr{ie.Index}}
+				il.Decs.NodeDecs = ie.Decs.NodeDecs
+				il.Decs.X, il.Decs.Lbrack, il.Decs.Indices = ie.Decs.X, ie.Decs.Lbrack, ie.Decs.Index
+				c.Replace(il)
+				n++
+			}
+			return true
+		})
+	}
+	return n
+}
+
+var c04Shapes = []string{"indexlist-truncate", "indexlist-apply-delete", "indexlist-keep-last", "indexlist-from-index", "call-drop-args", "composite-drop-elts", "fieldlist-drop-to-one"}
+
+// sources with instantiations of two and more type arguments in every position, some with
+// comments of their own at the points of the IndexListExpr
+var c04ShapeSources = []string{
+	"package a\n\ntype Pair[K comparable, V any] struct {\n\tKey K\n\tVal V\n}\n\nvar p = Pair[int, string]{Key: 1, Val: \"a\"}\n\nvar q Pair[string, Pair[int, bool]]\n\nfunc (p *Pair[K, V]) Swap(o Pair[K, V]) (r Pair[K, V], ok bool) {\n\treturn o, true\n}\n",
+	"package a\n\nfunc Map[T, U any](xs []T, f func(T) U) []U { return nil }\n\nfunc g() {\n\tys := Map[int, string]([]int{1, 2}, nil)\n\t_ = ys\n\th := Map[ /*first*/ int, string /*keep*/]\n\t_ = h\n\tvar m map[string]Triple[int, []byte, func(int) error]\n\t_ = m[\"k\"]\n}\n\ntype Triple[A, B, C any] struct{}\n",
+	"package a\n\nimport \"sync\"\n\ntype Cache[K comparable, V any] struct {\n\tmu sync.Mutex\n\tm  map[K]Entry[K, V] // entries\n}\n\ntype Entry[K comparable, V any] struct {\n\tk K\n\tv V\n}\n\nfunc New[K comparable, V any]() *Cache[K, V] {\n\treturn &Cache[K, V]{m: make(map[K]Entry[K, V])}\n}\n\nfunc use() {\n\tc := New[\n\t\tstring,\n\t\tint, // the value type\n\t]()\n\t_ = c.m[\"x\"].v\n\tvar arr [4]int\n\t_ = arr[1]\n}\n",
 }
 
 type c04Mark struct {
@@ -84,9 +163,27 @@ func c04Check(in c04Input) (key, what string) {
 	if err != nil {
 		return "", ""
 	}
+	if in.Shape != "" && c04ShapeEdit(f, in.Shape) == 0 {
+		return "", "" // the source has nothing of that shape
+	}
 	plain, perr, pm := printDst(f)
 	if pm != "" || perr != nil {
 		return "", ""
+	}
+	// the comments the tree carries already (from the source), by text
+	carried := map[string]int{}
+	{
+		var all []dst.Node
+		reflectPreorder(f, nil, &all)
+		for _, n := range all {
+			for _, p := range reflectPoints(n) {
+				for _, d := range *p.Decs {
+					if strings.HasPrefix(d, "//") || strings.HasPrefix(d, "/*") {
+						carried[strings.Join(strings.Fields(d), " ")]++
+					}
+				}
+			}
+		}
 	}
 	r := rand.New(rand.NewSource(in.Seed))
 	marks := c04Decorate(r, f, in.Dens, in.Kinds)
@@ -145,6 +242,27 @@ func c04Check(in c04Input) (key, what string) {
 	for _, m := range marks {
 		if cnt[m.text] != 1 {
 			return "c04-once", fmt.Sprintf("comment %s on %T.%s occurs %d times in the output", m.text, m.node, m.point, cnt[m.text])
+		}
+	}
+	// (a) for the comments the tree carried before: as many times as the tree holds them (white
+	// space inside a comment is the printer's; build constraints are rewritten by go/format)
+	{
+		got := map[string]int{}
+		for _, cm := range comments {
+			got[strings.Join(strings.Fields(cm.Lit), " ")]++
+		}
+		var texts []string
+		for t := range carried {
+			texts = append(texts, t)
+		}
+		sort.Strings(texts)
+		for _, t := range texts {
+			if strings.HasPrefix(t, "//go:build") || strings.HasPrefix(t, "// +build") || strings.HasPrefix(t, "//+build") {
+				continue
+			}
+			if got[t] != carried[t] {
+				return "c04-once", fmt.Sprintf("comment %s, held %d times by the tree before the numbered comments were added, occurs %d times in the output", clip(t, 80), carried[t], got[t])
+			}
 		}
 	}
 	// (a') the comments of one point come out in the order of the point's list
@@ -239,6 +357,14 @@ func c04Check(in c04Input) (key, what string) {
 				if cn, ok := fv.Interface().(ast.Node); ok && !reflect.ValueOf(cn).IsNil() {
 					if lt := lastTokenPos(cn); lt.IsValid() && p <= lt {
 						return "c04-place", fmt.Sprintf("%s (point %s of %T) at %d is not after child %s ending at %d", m.text, m.point, m.node, p, m.point, lt)
+					}
+				}
+			}
+			// named for a list field (IndexListExpr.Indices): after the last element of the list
+			if fv := av.FieldByName(m.point); fv.IsValid() && fv.Kind() == reflect.Slice && fv.Len() > 0 {
+				if cn, ok := fv.Index(fv.Len() - 1).Interface().(ast.Node); ok && !reflect.ValueOf(cn).IsNil() {
+					if lt := lastTokenPos(cn); lt.IsValid() && p <= lt {
+						return "c04-place", fmt.Sprintf("%s (point %s of %T) at %d is not after the last element of %s ending at %d", m.text, m.point, m.node, p, m.point, lt)
 					}
 				}
 			}
@@ -394,6 +520,28 @@ func c04Prop(c *Ctx) {
 			for _, n := range all {
 				for _, p := range reflectPoints(n) {
 					pointsHit[kindName(n)+"."+p.Name] = true
+				}
+			}
+		}
+	}
+	// trees that only edits produce (c04ShapeEdit): saturated and randomly decorated like parsed ones
+	shapeSrcs := append(append([]string{}, c04ShapeSources...), srcs[:min(len(srcs), 12)]...)
+	for si, src := range shapeSrcs {
+		for _, shape := range c04Shapes {
+			for _, dens := range []int{1, 3} {
+				in := c04Input{Src: src, Seed: c.Rng.Int63(), Dens: dens, Kinds: kinds[c.Rng.Intn(len(kinds))], Shape: shape}
+				if dens == 1 {
+					in.Kinds = "b"
+				}
+				if f, err := decorator.Parse(src); err != nil || c04ShapeEdit(f, shape) == 0 {
+					continue
+				}
+				_ = si
+				c.Res.Evaluations++
+				c.Res.seen(fmt.Sprint(in.Seed))
+				c.Res.hist("c04-shape-edit", shape)
+				if key, what := c04Check(in); key != "" {
+					c.Res.fail(key, what, in)
 				}
 			}
 		}
